@@ -204,7 +204,15 @@ func buildRepoKind(objs []gObj, times []int64, refs []string, bare bool) (*realR
 		prs = append(prs, pr{name, rr.oids[idx]})
 	}
 	sort.Slice(prs, func(a, b int) bool { return prs[a].name < prs[b].name })
+	// one repository in three keeps its references as loose files (component names up to 255 bytes fit)
+	looseRefs := len(refs)%3 == 1
 	for _, p := range prs {
+		if looseRefs {
+			f := filepath.Join(gitDir, p.name)
+			if os.MkdirAll(filepath.Dir(f), 0o755) == nil && os.WriteFile(f, []byte(p.oid+"\n"), 0o644) == nil {
+				continue
+			}
+		}
 		fmt.Fprintf(&packed, "%s %s\n", p.oid, p.name)
 	}
 	if err := os.WriteFile(filepath.Join(gitDir, "packed-refs"), packed.Bytes(), 0o644); err != nil {
@@ -320,7 +328,7 @@ type e2eCase struct {
 	nrefs int
 }
 
-var e2eNames = []string{"a", "b", "dir", "file.txt", "x y", "ü", "Makefile", "src", "README", "a.b", "z-1", "sp ace", "q\"uote", "back\\slash", "tab\tname", "star*", "[9]", "semi;colon", "caf\xe9.txt", "a\x01b", "del\x7f", "{}", "{{cc.name}}", "x}", "at@{1}", "co:lon"}
+var e2eNames = []string{"a", "b", "dir", "file.txt", "x y", "ü", "Makefile", "src", "README", "a.b", "z-1", "sp ace", "q\"uote", "back\\slash", "tab\tname", "star*", "[9]", "semi;colon", "caf\xe9.txt", "a\x01b", "del\x7f", "{}", "{{cc.name}}", "x}", "at@{1}", "co:lon", "new\nline", "-dash", "--names=none", "dir.txt", "src~", "README "}
 
 // a "git bomb" that is deep rather than wide: 35-45 levels of trees, each holding the level below twice,
 // over a leaf directory; with full names every cited object deep inside has to be described. The scan and
@@ -396,7 +404,11 @@ func genE2ERepo(r *rng, tier string) ([]gObj, []int64) {
 		blobs, trees, commits := indicesOf(objs, 'b'), indicesOf(objs, 't'), indicesOf(objs, 'c')
 		switch k := r.n(10); {
 		case k < 3 || len(objs) == 0:
-			objs = append(objs, gObj{kind: 'b', size: uint64(16 + r.n(3000))})
+			sz := uint64(16 + r.n(3000))
+			if r.coin(1, 15) {
+				sz = 0 // the empty blob
+			}
+			objs = append(objs, gObj{kind: 'b', size: sz})
 		case k < 6:
 			ne := r.n(6)
 			var es []gEntry
@@ -487,6 +499,9 @@ var refPrefixes = []string{"refs/heads/", "refs/heads/", "refs/tags/", "refs/rem
 func genE2ERefs(r *rng, objs []gObj) []string {
 	var refs []string
 	nr := 1 + r.n(6)
+	if r.coin(1, 40) {
+		nr = 0 // a repository without any reference (only ROOT arguments can select something)
+	}
 	used := map[string]bool{}
 	for j := 0; j < nr; j++ {
 		p := refPrefixes[r.n(len(refPrefixes))]
@@ -909,7 +924,7 @@ func init() {
 			refs := genE2ERefs(r, objs)
 			args, roots := genSelection(r, objs, refs)
 			style := []string{"full", "full", "hash", "none"}[r.n(4)]
-			layout := []string{"loose", "loose", "packed", "gc", "loose", "packed", "gc", "promisor"}[r.n(8)]
+			layout := []string{"loose", "loose", "packed", "gc", "loose", "packed", "alternates", "promisor"}[r.n(8)]
 			return []string{encRepo(objs), timesJoin(times), joinOrDash(refs, ","), encArgs(args), intsJoin(roots), style, layout}
 		},
 		exec: func(in []string) []string {
@@ -936,6 +951,17 @@ func init() {
 				runCmd(rr.dir, env, nil, "git", "--git-dir", rr.dir, "repack", "-adq")
 			case "gc":
 				runCmd(rr.dir, env, nil, "git", "--git-dir", rr.dir, "-c", "gc.pruneExpire=never", "gc", "-q")
+			case "alternates":
+				// every object is borrowed from another object directory (objects/info/alternates)
+				alt := filepath.Join(filepath.Dir(rr.dir), "alt-objects")
+				if os.MkdirAll(alt, 0o755) == nil {
+					ds, _ := filepath.Glob(filepath.Join(rr.dir, "objects", "[0-9a-f][0-9a-f]"))
+					for _, d := range ds {
+						os.Rename(d, filepath.Join(alt, filepath.Base(d)))
+					}
+					os.MkdirAll(filepath.Join(rr.dir, "objects", "info"), 0o755)
+					os.WriteFile(filepath.Join(rr.dir, "objects", "info", "alternates"), []byte(alt+"\n"), 0o644)
+				}
 			case "promisor":
 				// the layout of a partial clone in which nothing is missing: every object sits in a pack
 				// marked `.promisor` (seeded change C09n listed objects with --exclude-promisor-objects)
